@@ -38,8 +38,40 @@ def run(ctx, rep):
                   witness="package p; /**é*/ interface I { }" if bad else None, sample={"site": what, "operand_dimensions": operand_dims})
     rep.floor("J1", "byte-index uses in find_content_string", sites, 3)
     rep.analysed["counters"] = dims["counters"]
+    # ---- K: the scanner as an extracted transducer, simulated against a forward reference
+    import scanner
+    rep.rule("K", "the loop of find_content_string is extracted as a finite transducer (7 states x 8 character classes, by abstract interpretation of one loop iteration per configuration); the extracted table - not the code - is simulated "
+                  "on every prefix of a structured family (what precedes, an optional doc comment incl. non-ASCII and CRLF bodies, then up to N items of whitespace / ordinary block comments / line comments) and must return what a forward "
+                  "reference reading of the statement returns: the body of the closest doc comment when only whitespace and ordinary comments follow it, nothing otherwise")
+    try:
+        tab = scanner.extract(facts)
+    except Unsupported as e:
+        rep.fail("K", "C18|K|extraction", cfg.where(f), "the scanner loop could not be extracted as a transducer (fail closed): %s" % e)
+        tab = None
+    if tab is not None:
+        rep.floor("K", "extracted scanner transitions", len(tab["trans"]), 56)
+        rep.analysed["K character classes"] = sorted(tab["classes"])
+        rep.check(tab["init"] == {"state": tab["states"][0], "pos": "int:0", "start": "None", "end": "None"} or (tab["init"]["pos"] == "int:0" and tab["init"]["start"] == "None" and tab["init"]["end"] == "None"),
+                  "K", "C18|K|initial", cfg.where(f), "the scan starts with position 0 and no markers: %r" % (tab["init"],), sample={"initial": tab["init"]})
+        depth = 3 if ctx.tier == "thorough" else 2
+        n = 0
+        bad = None
+        for text in scanner.family(depth):
+            n += 1
+            got = scanner.simulate(tab, text)
+            want = scanner.reference(text)
+            if got != want:
+                bad = (text, got, want)
+                break
+        rep.analysed["K prefixes simulated"] = n
+        rep.check(bad is None, "K", "C18|K|scanner|%s" % (repr(bad[0])[:60] if bad else ""), cfg.where(f),
+                  "on the prefix %r the extracted scanner yields %r but the directly preceding doc comment (separated only by whitespace and ordinary comments) is %r" % (bad if bad else ("-", "-", "-")),
+                  witness={"prefix": bad[0], "scanner": repr(bad[1]), "expected": repr(bad[2])} if bad else None,
+                  sample={"prefixes": n, "example": {"prefix": "x; /** d */ // l\n", "doc": scanner.simulate(tab, "x; /** d */ // l\n")}})
+        if bad is None:
+            rep.floor("K", "prefixes simulated", n, 4000)
     rep.assumptions += ["TB-1 rustc MIR", "TB-2 @L of the first symbol is the start of the construct's first token"]
-    rep.not_decided += ["that the backward scanner returns the closest doc comment, only across whitespace and ordinary comments (a 7-state transducer over all strings)",
+    rep.not_decided += ["the backward scanner on prefixes outside the simulated family (rule K is exhaustive only within the bounded structured family; arbitrary garbage between comment and construct is not covered)",
                         "the normalisation done by the three regex replacements of parse_javadoc (decoration, line joining, @tag clauses) for arbitrary Unicode text"]
 
 
